@@ -12,6 +12,9 @@
 #include <functional>
 #include <set>
 #include <csetjmp>
+#include <csignal>
+#include <cstring>
+#include <signal.h>
 
 namespace sym
 {
@@ -38,6 +41,9 @@ struct trap
     static std::string& message() { static std::string m; return m; }
     // set by the MPI shim: called instead of longjmp when the failing code runs on a coroutine stack
     static void (*&escape())() { static void (*f)() = nullptr; return f; }
+    // longjmp skips the destructors that would undo a redirection of std::cout made by a harness
+    static std::streambuf*& cout_buf() { static std::streambuf* b = nullptr; return b; }
+    static void restore_streams() { if (cout_buf()) std::cout.rdbuf(cout_buf()); }
 };
 
 // ---- conditions --------------------------------------------------------------------------------
@@ -434,11 +440,37 @@ inline SYM_NATIVE parse_decimal(std::string s)
     return static_cast<SYM_NATIVE>(std::stold(s));
 }
 
+// a hardware arithmetic trap (integer division by zero) in the real code is reported like a failed assertion
+inline void sigfpe_handler(int)
+{
+    if (trap::armed())
+    {
+        trap::message() = "SIGFPE: integer division by zero (or overflowing integer division) in the code under test";
+        trap::restore_streams();
+        if (trap::escape()) trap::escape()();
+        std::longjmp(trap::buf(), 1);
+    }
+    std::fprintf(stderr, "SIGFPE outside path\n");
+    std::_Exit(3);
+}
+
+inline void install_sigfpe_trap()
+{
+    struct sigaction sa;
+    std::memset(&sa, 0, sizeof sa);
+    sa.sa_handler = sigfpe_handler;
+    sa.sa_flags = SA_NODEFER;
+    sigemptyset(&sa.sa_mask);
+    sigaction(SIGFPE, &sa, nullptr);
+}
+
 template <typename BodyS, typename BodyD>
 int run_harness(std::string const& harness_name, options const& opt, BodyS body_sym, BodyD body_dbl)
 {
     auto t0 = std::chrono::steady_clock::now();
     auto elapsed = [&]() { return std::chrono::duration<double>(std::chrono::steady_clock::now() - t0).count(); };
+    install_sigfpe_trap();
+    trap::cout_buf() = std::cout.rdbuf();
 
     if (opt.mode == "replay")
     {
@@ -733,6 +765,7 @@ __attribute__((noreturn)) void __glibcxx_assert_fail(const char* file, int line,
     {
         sym::trap::message() = std::string(file ? file : "?") + ":" + std::to_string(line) + ": " +
             (condition ? condition : "?") + " in " + (function ? std::string(function).substr(0, 120) : "?");
+        sym::trap::restore_streams();
         if (sym::trap::escape()) sym::trap::escape()();
         std::longjmp(sym::trap::buf(), 1);
     }
@@ -749,6 +782,7 @@ extern "C" __attribute__((noreturn)) void __assert_fail(const char* assertion, c
     {
         sym::trap::message() = std::string(file ? file : "?") + ":" + std::to_string(line) + ": assert(" +
             (assertion ? assertion : "?") + ") in " + (function ? std::string(function).substr(0, 120) : "?");
+        sym::trap::restore_streams();
         if (sym::trap::escape()) sym::trap::escape()();
         std::longjmp(sym::trap::buf(), 1);
     }
